@@ -72,6 +72,28 @@ def run(ck, F, E):
     resolution_order(ck, F)
     jump_targets(ck, F)
     resume_rule(ck, F, "C06")
+    analyzer_depth(ck, F)
+
+
+def analyzer_depth(ck, F):
+    """The analyzer keeps ONE Program for the whole file and carries on after a line's error.  Its nesting-depth counter (the
+    guard against deep recursion) must therefore be given back on every path of every analyzer function that takes it --
+    error paths included: a leak per erroneous line adds up until every later, valid line is reported as OUT OF MEMORY,
+    an error the analyzer raises for a program that runs fine."""
+    import panics
+    n = 0
+    for g, (field, limit, leaves) in sorted(panics.counter_guard_fns(F).items()):
+        for body in sorted(F.bodies.values(), key=lambda b: b.path):
+            if not (body.path.startswith(AN_E + "::") or body.path.startswith(AN_S + "::")):
+                continue
+            if not any(c.callee == g or c.callee in leaves for c in body.calls()):
+                continue
+            n += 1
+            ck.require(panics._balanced(body, g, leaves, exact=True), "C06:DEPTH:%s" % body.path.split("::")[-1], "no error for what runs",
+                       "every successful %s is matched by one leave on every path (errors included)" % g.split("::")[-1],
+                       "%s can return (e.g. with the line's error) without giving Program.%s back: the count leaks from line to "
+                       "line of the analysed file until valid lines are reported as OUT OF MEMORY" % (body.path, field), body.span)
+    ck.floor("C06.analyzer users of the depth guard", n, 2)
 
 
 # ------------------------------------------------------------------------------------- 1
@@ -170,14 +192,22 @@ def _is_u64_cast_of_literal(F, e, helper, depth=0):
             e = e[2][0]
         else:
             break
+    def plain(x):
+        """the operand of the cast is the literal's value as parsed: no rounding / clamping / arithmetic in between (the
+        interpreter truncates with a bare `as u64`; a fork that rounds first accepts `GOTO 29.6` for line 30)"""
+        names = {y[1].split("::")[-1] for y in expr_calls(x)}
+        if names & {"round", "floor", "ceil", "trunc", "clamp", "abs", "min", "max", "mul_add", "rem_euclid", "fract", "round_ties_even"}:
+            return False
+        x = strip_expr(x)
+        return x[0] != "binop"
     if e[0] == "cast" and e[1] == "FloatToInt" and e[3] == "u64":
-        return True
+        return plain(e[2])
     if e[0] == "call" and e[1] in F.bodies and helper(e[1]) and depth < 2:
         hb = F.bodies[e[1]]
         for (bb, i, pl, rv, sp) in hb.assigns():
             x = hb.rv_expr(rv)
             if x[0] == "cast" and x[1] == "FloatToInt" and x[3] == "u64":
-                return True
+                return plain(x[2]) and all(plain(a) for a in e[2])
     return False
 
 
